@@ -45,6 +45,7 @@ To use this backend you must activate the `slurm` backend.
 
 import logging
 import os.path
+import shlex
 from collections import defaultdict
 
 import attrs
@@ -293,10 +294,12 @@ class SlurmOps:
             out.append(OPTION_STR.format("--output=", "/dev/null"))
 
         out.append("")
-        out.append("cd {}".format(target.working_dir))
+        # Stop at the first failing command, including a failing `cd`, and
+        # quote the working directory so that any legal name works.
+        out.append("set -e")
+        out.append("cd {}".format(shlex.quote(target.working_dir)))
         out.append("export GWF_JOBID=$SLURM_JOBID")
         out.append('export GWF_TARGET_NAME="{}"'.format(target.name))
-        out.append("set -e")
         out.append("")
         out.append(ensure_trailing_newline(target.spec))
         return "\n".join(out)
